@@ -456,16 +456,19 @@ class ZorgFileCompiler(ZorgFileListener):
         note_body: Optional[ZorgFileParser.Note_bodyContext],
         **extra_kwargs: Mapping[str, Any],
     ) -> None:
-        if note_body is None:
-            _LOGGER.warning("Skipping todo with no note body")
-        elif note_body.getText().strip() == "":
-            _LOGGER.warning("Skipping todo with empty note body")
-        elif self.error_manager.errors:
+        if self.error_manager.errors:
+            # NOTE: This MUST be checked first. Error recovery can leave a note
+            # without a (non-empty) body, and a page with syntax errors must
+            # be flagged no matter what is left of its notes.
             _LOGGER.warning(
                 "Skipping note since zorg file has errors.",
                 file_path=str(self.page.path),
             )
             self.page.has_errors = True
+        elif note_body is None:
+            _LOGGER.warning("Skipping todo with no note body")
+        elif note_body.getText().strip() == "":
+            _LOGGER.warning("Skipping todo with empty note body")
         else:
             body: Final = note_body.getText().strip()
             l1_bullet_prefix: Final = "  * "
